@@ -129,6 +129,21 @@ pub fn g_selfdep(a: u32, b: String) -> u64 { body2(a, b) }
 #[cache_async(dependencies = ["a_selfdep"], limit = 8, name = "a_selfdep")]
 pub async fn a_selfdep(a: u32, b: String) -> u64 { body2(a, b) }
 
+// ---- Result types spelled with paths INSIDE the generic arguments; memory bound without an entry limit
+pub fn body_res_path(a: u32) -> Result<u64, std::fmt::Error> { Ok(0) }
+
+#[cache(limit = 8)]
+pub fn g_result_path(a: u32) -> Result<u64, std::fmt::Error> { body_res_path(a) }
+
+#[cache_async(limit = 8)]
+pub async fn a_result_path(a: u32) -> Result<u64, std::fmt::Error> { body_res_path(a) }
+
+#[cache(max_memory = "1MB", policy = "lru")]
+pub fn g_mem_only(a: u32, b: String) -> u64 { body2(a, b) }
+
+#[cache_async(max_memory = "1MB", policy = "lru")]
+pub async fn a_mem_only(a: u32, b: String) -> u64 { body2(a, b) }
+
 // ---- max_memory spellings: GB suffix, plain byte count
 #[cache(limit = 4, max_memory = "1GB")]
 pub fn g_mem_gb(a: u32, b: String) -> u64 { body2(a, b) }
